@@ -48,6 +48,9 @@ type Scn struct {
 	// Pause: the client stays silent for this many seconds (longer than the matching timeout)
 	// before its last write, long after matching is over
 	Pause int `json:"pause,omitempty"`
+	// UDPIn: the downstream is a UDP association; the client sends datagrams of these sizes (its
+	// stream is their concatenation), the association ends by its idle timeout
+	UDPIn []int `json:"udp_in,omitempty"`
 }
 
 var chunk = layer4.VerifPrefetchChunkSize()
@@ -84,6 +87,7 @@ type result struct {
 	server       *vnet.Conn
 	openAtReturn []string
 	halfDialled  []*vnet.Conn // connections opened by attempts that failed half-way
+	pc           *vnet.PacketConn
 }
 
 func execute(x *explore.Exec, sc *Scn) *result {
@@ -191,6 +195,22 @@ func execute(x *explore.Exec, sc *Scn) *result {
 		if err := srv.Provision(ctx, zap.NewNop()); err != nil {
 			panic(err)
 		}
+		if len(sc.UDPIn) > 0 {
+			pc := vnet.NewPacketConn(vnet.UDP("10.0.0.1", 443))
+			res.pc = pc
+			vsched.GoNamed("serve", func() { layer4.VerifServePacket(srv, pc) })
+			out, off := payload('a', sc.C2U), 0
+			for _, n := range sc.UDPIn {
+				pc.Inject(vnet.Datagram{Data: out[off : off+n], Addr: hm.MustUDPAddr("192.0.2.9:40000")})
+				off += n
+				vtime.Sleep(10 * time.Millisecond)
+			}
+			vtime.Sleep(45 * time.Second) // the association's idle timeout ends the client's direction
+			pc.Fail(os.ErrClosed)
+			vtime.Sleep(time.Second)
+			res.dials = append(res.dials, nw.Dials...)
+			return
+		}
 		cl, sv := vnet.Pipe("client", "server", vnet.TCP("192.0.2.9", 40000), vnet.TCP("10.0.0.1", 443))
 		cl.Menu, sv.Menu = hm.StdMenu(1), hm.StdMenu(1, chunk-1)
 		sv.EOFWithData = true // the client's last bytes may arrive together with end-of-stream
@@ -271,6 +291,29 @@ func check(x *explore.Exec, sc *Scn, r *result) {
 	}
 	if r.out.Horizon {
 		x.Fail("horizon", "step horizon exceeded; %s", desc())
+		return
+	}
+	if len(sc.UDPIn) > 0 {
+		want := payload('a', sc.C2U)
+		for i, u := range r.ups {
+			if string(u.got) != string(want) {
+				x.Fail("upstream-stream-not-exact", "UDP downstream, upstream %d: the client's datagrams %v carry %d bytes, the upstream received %d (first difference at %d); %s", i, sc.UDPIn, len(want), len(u.got), firstDiff(u.got, want), desc())
+			}
+			if !u.sawEOF && x.Used(explore.KTime) == 0 {
+				x.Fail("upstream-no-eof", "UDP downstream, upstream %d did not observe end of stream after the association's idle timeout (%q); %s", i, u.readErr, desc())
+			}
+			if u.clientEnd != nil && !u.clientEnd.Closed() && x.Used(explore.KTime) == 0 {
+				x.Fail("upstream-conn-left-open", "UDP downstream: the connection to upstream %d is still open after the association ended; %s", i, desc())
+			}
+		}
+		var back []byte
+		for _, d := range r.pc.Sent {
+			back = append(back, d.Data...)
+		}
+		if wantBack := payload('A', sc.U2C); string(back) != string(wantBack) {
+			x.Fail("client-stream-not-exact", "UDP downstream: the datagrams sent back to the client carry %d bytes, the upstream sent %d (first difference at %d); %s", len(back), len(wantBack), firstDiff(back, wantBack), desc())
+		}
+		x.Observe(len(r.ups[0].got), len(back))
 		return
 	}
 	want := payload('a', sc.C2U)
@@ -376,8 +419,29 @@ func check(x *explore.Exec, sc *Scn, r *result) {
 	x.Observe(len(r.clientGot), r.clientEOF, r.handleDone, len(r.out.Blocked))
 }
 
+func firstDiff(a, b []byte) int {
+	n := min(len(a), len(b))
+	for i := 0; i < n; i++ {
+		if a[i] != b[i] {
+			return i
+		}
+	}
+	return n
+}
+
 func scenarios(tier string, yield func(any) bool) {
 	sizes := []int{0, 1, 3, chunk + 1}
+	// UDP downstream: datagrams smaller than, equal to and larger than the buffers they are read
+	// into (prefetch chunk, the proxy's copy buffer), alone and followed by another
+	for _, in := range [][]int{{5}, {chunk}, {chunk + 1}, {3000}, {8192}, {8193}, {8800}, {3000, 5}, {5, 3000}, {8800, 8800}} {
+		sum := 0
+		for _, n := range in {
+			sum += n
+		}
+		if !yield(&Scn{C2U: sum, U2C: 3, Peers: 1, Order: "upstream-first", Half: true, Need: 1, Writes: 1, UDPIn: in}) {
+			return
+		}
+	}
 	if !bigScenarios(yield) {
 		return
 	}
